@@ -236,7 +236,7 @@ def execute(scn, debug=False):
                 ['PIPELINING'] if scn['pipelining'] else [])
             b.sendall(wire(scn['hello'], ext))
             accepted = 0
-            for st in scn['steps']:
+            for si, st in enumerate(scn['steps']):
                 m = st['m']
                 if m == 'send':
                     continue
@@ -257,7 +257,8 @@ def execute(scn, debug=False):
                     accepted = 0
                 if m == 'data' and st['reply'][0] == '354':
                     # read content
-                    nxt = scn['steps'][scn['steps'].index(st) + 1]
+                    # (by position: two steps may well be equal)
+                    nxt = scn['steps'][si + 1]
                     while True:
                         l = line()
                         if l is None:
@@ -271,7 +272,7 @@ def execute(scn, debug=False):
                     # in 'burst' mode and the client is about to pipeline the
                     # next transaction; a client that stops to authenticate
                     # waits for this reply first)
-                    k2 = scn['steps'].index(nxt) + 1
+                    k2 = si + 2
                     after = scn['steps'][k2]['m'] if k2 < len(scn['steps']) \
                         else None
                     if not scn['pipelining'] or after == 'auth':
